@@ -840,6 +840,14 @@ def run(ctx):
   src_changed = [] if info is not None else evo_src.changed(REPO_DIR())
   ctx.extra['source_pins'] = dict(pinned=len(evo_src.PINS), changed=src_changed)
   ctx.build()
+  if ctx.thorough:
+    # the small-scope theorem for 5 values (about 50 s of vm_compute) is an extra obligation of the thorough tier
+    from harness.lib import coqrun
+    ok, log, dt = coqrun.build(['Proofs/EvoPermSmall5.vo'])
+    ctx.extra['permutation_crossovers_5_values'] = dict(built=ok, seconds=round(dt, 1), what='pmx_small5, ox_small5, cycle_small5: exhaustive over all pairs of permutations of 5 values')
+    ctx.obligations += 1; ctx.obligation_names.append('Proofs/EvoPermSmall5.v (thorough tier): PMX / Order / Cycle propose permutations for all parents of 5 values')
+    if ok: ctx.discharged += 1
+    else: ctx.broken.append(dict(kind='proof', name='Proofs/EvoPermSmall5.v', detail=json.dumps(coqrun.first_error(log))))
   rng = ctx.rng
   cases = []
   def has_custom(s):
